@@ -1,7 +1,7 @@
 """Triage aid (not a check, no verdict depends on it): reproduces, against whichever
 `measured` is on PYTHONPATH, every genuine defect that was repaired by a fix: commit.
 
-    PYTHONPATH=<worktree of 17aaa5b>/src /venv/bin/python triage/fixed_defects.py   -> every line says PRESENT
+    PYTHONPATH=<worktree of 17aaa5b>/src /venv/bin/python triage/fixed_defects.py   -> every line says PRESENT (except c19_half_built_dimension, see there)
     PYTHONPATH=/repo/src                /venv/bin/python triage/fixed_defects.py   -> every line says absent
 
 Each function returns True when the defect is present.
@@ -146,6 +146,17 @@ def c19_dimension_rebind() -> bool:
     return Dimension._by_name["area"] is not before
 
 
+def c19_half_built_dimension() -> bool:
+    """Not in the pinned commit: introduced by the name guard of fix 7c8ba86, repaired by c4c2ae2."""
+    key = tuple([0, 7] + [0] * (len(Dimension._fundamental) - 2))
+    try:
+        Dimension(key, name="area")
+    except ValueError:
+        pass
+    # Dimension.define re-keys every interned dimension by its exponents
+    return any(not hasattr(d, "exponents") for d in Dimension._known.values())
+
+
 def c12_asymmetric_eq() -> bool:
     a, b = Measurement(5 * Meter, 1), Measurement(5 * Meter, 3)
     return (a == b) != (b == a)
@@ -189,7 +200,7 @@ def c20_race() -> bool:
 
 CHECKS = [c09_metric_foot, c09_dry_gallon, c01_as_ratio, c01_root, c14_pow, c14_zero, c10_prefixed_target, c07_assert,
           c08_stale_plan, c17_long_digits, c19_alias_leak, c19_deci, c19_deca_symbol, c19_prefix_rebind,
-          c19_dimension_rebind, c12_asymmetric_eq, c20_race]
+          c19_dimension_rebind, c19_half_built_dimension, c12_asymmetric_eq, c20_race]
 
 if __name__ == "__main__":
     present = 0
